@@ -40,6 +40,8 @@ def run(ctx):
     for r in rows:
         if isinstance(r["opts"], list):      # TLC serialises the function with an empty domain as []
             r["opts"] = {}
+    # size thresholds of the generated tables (8/16/32-bit element types): a lexer with > 32767 DFA states, one around 500
+    rows += [dict(base="biglexer", opts={}, k=0), dict(base="midlexer", opts={}, k=0), dict(base="midlexer", opts={"optimizeTables": True}, k=0)]
     results = []
     B = 60
     for b in range(0, len(rows), B):
@@ -68,4 +70,5 @@ def run(ctx):
     ctx.cov["rule"] = ("5 base grammars x (home valuation + all single and pairwise flips of 23 boolean Go-target options)%s = %d configurations; each compiled, generated and built by the "
                        "real tool chain; TLC admits Rejected or Write+/Build-ok only. Non-trivial: accepted configurations that set at least two options." % ("" if thorough else ", every 4th", len(results)))
     ctx.assumptions += ["'builds' is decided by go1.26 build; configurations the compiler rejects with errors are outside the quantifier",
-                        "the predicted file set is limited to lexer/token/parser files"]
+                        "the predicted file set is limited to lexer/token/parser files",
+                        "table-size thresholds: one lexer with more than 32767 DFA states and one mid-size grammar are generated and built with the home valuation"]
